@@ -132,11 +132,10 @@ def blockScalarLines (literal : Bool) (indent : Nat) : Nat → BlkAcc → S BlkA
           let tb ← skipBlockScalarIndent indent (s.inp.remaining + 2) []
           blockScalarLines literal indent fuel ⟨str, lb, tb, leadingBlank⟩
 
-def scanBlockScalar (literal : Bool) : S Token := do
-  let startMark ← getMark
+/-- `scan_block_scalar` after the indicator has been skipped and the non-block indents unrolled:
+    header, indentation detection, content lines, chomping (touches only input, mark and flags) -/
+def scanBlockScalarBody (literal : Bool) (startMark : Marker) : S Token := do
   let style := if literal then ScalarStyle.literal else ScalarStyle.folded
-  skipNonBlank
-  unrollNonBlockIndents
   -- header
   let c ← lookCh
   let (chomping, increment) ←
@@ -205,6 +204,12 @@ def scanBlockScalar (literal : Bool) : S Token := do
             else pure str
           let str := if chomping == .keep then str ++ a.trailingBreaks else str
           pure ⟨⟨startMark2, s.mark⟩, .scalar style str⟩
+
+def scanBlockScalar (literal : Bool) : S Token := do
+  let startMark ← getMark
+  skipNonBlank
+  unrollNonBlockIndents
+  scanBlockScalarBody literal startMark
 
 def fetchBlockScalar (literal : Bool) : S Unit := do
   saveSimpleKey
